@@ -478,3 +478,36 @@ def oracle(c, o):
             return 'nested_odd_even_split: odd and even parts do not partition the observations'
         return None
     return None
+
+
+# -------------------------------------------------------------------------------- supporting tests
+def support(rng, tier):
+    """subsets by float-valued descriptors whose distinct values are close relative to their magnitude (trial numbers stored as
+    floats, time stamps): exactly the matching items (seeded change C11-m9: tolerant comparison)"""
+    import rsatoolbox
+    res = []
+    rs = np.random.RandomState(11 + rng.randrange(1000))
+    for rep in range(4 if tier == 'quick' else 30):
+        n_obs, n_ch, n_t = rs.randint(4, 8), rs.randint(2, 4), rs.randint(3, 6)
+        trial = 100000.0 + np.arange(n_obs, dtype=float) + rs.randint(0, 3) * 1000.0
+        chan = 250000.0 + 0.5 * np.arange(n_ch, dtype=float)
+        times = 2000.0 + 0.01 * np.arange(n_t)
+        meas = rs.rand(n_obs, n_ch, n_t)
+        td = rsatoolbox.data.TemporalDataset(meas, obs_descriptors={'trial': trial}, channel_descriptors={'pos': chan},
+                                             time_descriptors={'time': times})
+        ds = rsatoolbox.data.Dataset(meas[:, :, 0], obs_descriptors={'trial': trial}, channel_descriptors={'pos': chan})
+        k = int(rs.randint(0, n_obs))
+        picks = sorted(rs.choice(n_obs, 2, replace=False).tolist())
+        checks = [
+            ('subset_obs scalar', ds.subset_obs('trial', float(trial[k])).obs_descriptors['trial'], [trial[k]]),
+            ('subset_obs list', ds.subset_obs('trial', [float(trial[i]) for i in picks]).obs_descriptors['trial'], [trial[i] for i in picks]),
+            ('subset_channel scalar', ds.subset_channel('pos', float(chan[0])).channel_descriptors['pos'], [chan[0]]),
+            ('temporal subset_obs', td.subset_obs('trial', np.float64(trial[k])).obs_descriptors['trial'], [trial[k]]),
+            ('subset_time', td.subset_time('time', times[1], times[1]).time_descriptors['time'], [times[1]]),
+        ]
+        for name, got, want in checks:
+            got = [float(x) for x in np.atleast_1d(got)]
+            res.append((f'float_descriptor_{name.replace(" ", "_")}_{rep}', got == [float(x) for x in want],
+                        dict(call=name, descriptor_values=[float(x) for x in (trial if 'obs' in name else chan if 'channel' in name else times)],
+                             returned=got, expected=[float(x) for x in want])))
+    return res
